@@ -446,6 +446,19 @@ class InProtocolBase(ProtocolMixin):
         if self.validator is self.SOFT_VALIDATION and not (
                                         cls.validate_string(cls, value)):
             raise ValidationError(value)
+
+        if isinstance(value, six.binary_type):
+            try:
+                value = value.decode(self.default_string_encoding)
+            except UnicodeDecodeError:
+                raise ValidationError(value)
+
+        # getattr(cls, value) alone would also hand out any other attribute of
+        # the class, and raise AttributeError/TypeError for the rest.
+        if not isinstance(value, six.string_types) \
+                                               or value not in cls.__values__:
+            raise ValidationError(value)
+
         return getattr(cls, value)
 
     def model_base_from_bytes(self, cls, value):
